@@ -471,3 +471,47 @@ def borrow(rule, new_id, title, reason, only=None, floor=1):
                 key = new + ":" + key[len(old) + 1:]
             r.viol(key, v.msg, file=v.file, line=v.line, **(v.detail or {}))
     return r
+
+
+def skip_icu_gates(ctx, rule_id, title, reason):
+    """The build helper parses the same files as the macro with SKIP_ICU_CFG set.  Everywhere the parser reads that flag it must
+    stand in for an ICU feature being enabled - `cfg!(feature = F) || SKIP_ICU_CFG.get()` (or its negation) - and every gate on
+    such a feature must carry it: then the helper's parse is the macro's parse with every formatter / plural feature on, and
+    nothing else (no pass skipped, no value treated differently)."""
+    from report import Rule
+    from astlib import walk, show
+    r = Rule(rule_id, title, reason, floor=7)
+    pos = re.compile(r'^\(?cfg!\(feature="(format_\w+|plurals)"\)\|\|SKIP_ICU_CFG\.get\(\)\)?$')
+    neg = re.compile(r'^\(?!cfg!\(feature="(format_\w+|plurals)"\)&&!SKIP_ICU_CFG\.get\(\)\)?$')
+    icu = re.compile(r'cfg!\((?:[a-z]+\()*feature="(format_\w+|plurals)"')
+    for f in ctx.ast.fns:
+        if not f.file.startswith("leptos_i18n_parser/src/") or f.body is None or f.is_test():
+            continue
+        body_t = flat(show(f.body))
+        total = body_t.count("SKIP_ICU_CFG")
+        if not total and not icu.search(body_t):
+            continue
+        if "SkipIcuCfgGuard" in (f.qual or "") and ".set(" in body_t and ".get(" not in body_t:
+            r.inst(f.qual, "sets the flag for the duration of one parse (guard)")
+            continue
+        good = 0
+        for n in walk(f.body):
+            t = None
+            if n["k"] == "If":
+                t = flat(show(n["cond"]))
+            elif n["k"] == "Let" and n.get("init") is not None:
+                t = flat(show(n["init"]))
+            if t is None or ("SKIP_ICU_CFG" not in t and not icu.search(t)):
+                continue
+            if n["k"] == "Let" and not (pos.match(t) or neg.match(t)):
+                continue            # a let whose initialiser merely contains such a test further down: its own If is visited
+            m = pos.match(t) or neg.match(t)
+            if m:
+                good += 1
+                r.inst("%s#%s" % (f.qual, m.group(1)), "`%s`: the flag counts as the feature being enabled" % t)
+            else:
+                r.viol("%s:%s#gate" % (rule_id.split(".")[-1], f.qual), "the condition `%s` does not have the form `cfg!(feature = F) || SKIP_ICU_CFG.get()` (or its negation): "
+                       "the build helper and the macro would parse the same files differently" % t[:160], file=f.file, line=n.get("line") or f.line)
+        if total > good:
+            r.viol("%s:%s#reads" % (rule_id.split(".")[-1], f.qual), "SKIP_ICU_CFG is read %d time(s) in this function, only %d of them as a stand-in for an ICU feature" % (total, good), file=f.file, line=f.line)
+    return r
